@@ -600,6 +600,10 @@ TARGETED = {
     # two sources, fan-in, chain of unstored calls
     "fan-in": [("source", [], [], False), ("source", [], [], False), ("call", [0], [], False), ("call", [2, 1], [], False),
                ("call", [3], [], True), ("call", [4, 0], [], False), ("call", [5], [], True)],
+    # predecessors WITH and WITHOUT a modified time side by side, in both argument orders: an input-less unstored call, an unregistered
+    # literal and a source (or a stored value) feed one stored value - the newest of the times that exist decides
+    "timed-and-untimed": [("source", [], [], False), ("call", [], [], False), ("lit", [], [], False), ("call", [0, 1], [], True),
+                          ("call", [1, 0], [], True), ("call", [2, 0, 1], [], True), ("call", [1, 3], [], True), ("call", [4, 1, 2], [], True)],
 }
 
 
